@@ -813,7 +813,7 @@ def plan(tier, seed):
         return specs
     parts = 16
     specs = [{'kind': 'corpus', 'part': i, 'of': parts, 'tier': tier} for i in range(parts)]
-    specs += [{'kind': 'random', 'seed': seed * 100000 + i, 'units': 30, 'k_random': 30, 'tier': tier} for i in range(48)]
+    specs += [{'kind': 'random', 'seed': seed * 100000 + i, 'units': 48, 'k_random': 30, 'tier': tier} for i in range(48)]
     assert n_units
     return specs
 
